@@ -888,4 +888,63 @@ theorem qwf_crashAdv {q : Q} {done r rs B} (h : QWF q.segs q.maxSeg done r rs B)
       exact ⟨0, by simp, by rw [h5]; simp⟩
 
 
+theorem newSeg_nil (g : Nat) : newSeg verifyAll g [] = some (freshS g) := by
+  simp [newSeg, freshS]
+
+/-- **Crash while `addSegment` creates the new segment file** (before the entry is
+    written), when the file is left empty or with its complete footer. -/
+theorem qwf_crashSeg {q : Q} {done r rs B} (h : QWF q.segs q.maxSeg done r rs B)
+    (hm : ¬ q.maxSize < 2 * q.maxSeg) (b : Bytes) (k : Nat)
+    (hgood : ∀ o, (q.crashSegFiles b k).2 = some o → o.same ≠ 0) :
+    ∃ q', qOpen verifyAll q.maxSize q.maxSeg (q.crashSegFiles b k).1 = some q' ∧
+      q'.maxSeg = q.maxSeg ∧ q'.maxSize = q.maxSize ∧
+      ∃ done' r' rs', QWF q'.segs q.maxSeg done' r' rs' B ∧ r' ++ rs'.flatten = r ++ rs.flatten ∧
+        (done' = done ∨ (done' = [] ∧ r = [])) := by
+  obtain ⟨hd, t, hsegs, hwf, htail, hemp⟩ := h.shape
+  have h8 := h.maxSeg8
+  have hB8 := h.room8
+  have plain := qwf_reopen h hm
+  unfold Q.crashSegFiles at hgood ⊢
+  by_cases hfull : q.total + b.length > q.maxSize
+  · simp only [hfull, if_true]; exact plain
+  · simp only [hfull, if_false] at hgood ⊢
+    have hne : q.segs ≠ [] := by rw [hsegs]; simp
+    obtain ⟨tl, htl⟩ : ∃ tl, q.segs.getLast? = some tl := by
+      cases hs : q.segs.getLast? with
+      | none => exact absurd (List.getLast?_eq_none_iff.mp hs) hne
+      | some tl => exact ⟨tl, rfl⟩
+    simp only [htl] at hgood ⊢
+    cases happ : tl.append b with
+    | ok t' => exact plain
+    | error e =>
+      cases e
+      simp only [happ] at hgood ⊢
+      have hk := hgood _ rfl
+      simp only at hk
+      -- the new file: empty, or a complete zero footer
+      have hnew : ∃ t', newSeg verifyAll q.maxSeg ((be64 0).take k) = some t' ∧ SegWF t' [] [] ∧ t'.size = 8 := by
+        by_cases hk0 : k = 0
+        · subst hk0
+          exact ⟨freshS q.maxSeg, by simpa using newSeg_nil q.maxSeg, fresh_wf _, by simp [freshS, Seg.size, be64_length]⟩
+        · have hk8 : k ≥ 8 := by
+            apply Classical.byContradiction; intro hc; simp [hk0, hc] at hk
+          have : (be64 0).take k = (freshS q.maxSeg).file := by
+            rw [List.take_of_length_le (by simp [be64_length]; omega)]; rfl
+          rw [this]
+          exact ⟨reseat q.maxSeg (freshS q.maxSeg), newSeg_reseat _ (fresh_wf _), reseat_wf _ (fresh_wf _),
+            by simp [reseat, freshS, Seg.size, be64_length]⟩
+      obtain ⟨t', hnt, hwt, hst⟩ := hnew
+      obtain ⟨q', h1, h2, h3, done', r', rs', h4, h5, h6⟩ :=
+        qOpen_tail_recovered q.maxSize q.maxSeg B hd t t' _ done r rs [] hwf htail hwt hnt h8 hm (by
+          intro x hx
+          simp at hx
+          rcases hx with rfl | hx | rfl
+          · exact h.room x (by simp [hsegs])
+          · exact h.room x (by simp [hsegs, hx])
+          · omega)
+      have hf : q.files ++ [(be64 0).take k] = hd.file :: (t.map Seg.file ++ [(be64 0).take k]) := by
+        simp [Q.files, hsegs]
+      refine ⟨q', by rw [hf]; exact h1, h2, h3, done', r', rs', h4, by rw [h5]; simp, h6⟩
+
+
 end Influx.DQ
